@@ -25,11 +25,23 @@ def count_nodes(t):
     return 0
 
 
+def count_sum_operands(t):
+    if isinstance(t, dict):
+        n = len(t["a"]) if t.get("t") == "sum" else 0
+        return n + sum(count_sum_operands(v) for v in t.values())
+    if isinstance(t, list):
+        return sum(count_sum_operands(v) for v in t)
+    return 0
+
+
 def nops_of(prog):
-    n = 100
+    """Length of the longest accumulation chain in the kernel (not the total operation count): the rounding
+    error of a sum of n products is bounded by ~n eps times the sum of the magnitudes."""
+    n = 16
     for part in prog.parts:
-        npts = 64
-        n += npts * (count_nodes(part.tree) + sum(prog.coef_dims) + 4 * prog.spaces[prog.coord].dim)
+        depth = len(json.dumps(part.tree)) // 400 + 2                      # nesting of products
+        n += 32 * (count_sum_operands(part.tree) + 1) + depth
+    n += max(prog.coef_dims + [0]) + 3 * prog.spaces[prog.coord].dim
     return n
 
 
@@ -118,6 +130,30 @@ def _compile(chunk, scalar, opts, skipped):
                 skipped.append({"item": rec[0], "why": f"numba backend failed: {type(e).__name__}: {str(e)[:300]}",
                                 "ffcx_error": True, "numba_error": type(e).__name__, "tb": traceback.format_exc()[-2500:]})
         return out
+    if any(rec[1].get("twin_options") is not None for rec in chunk):
+        # the same form compiled under a second option vector (option-independence law T[opts1] = T[opts2])
+        out = []
+        for rec in chunk:
+            try:
+                mod = s5.Module([rec[2]["form"]], scalar, opts)
+                rec[2]["twin_module"] = s5.Module([rec[2]["form"]], scalar, rec[1]["twin_options"])
+                out.append((rec, (mod, 0)))
+            except Exception as e:  # noqa: BLE001
+                skipped.append({"item": rec[0], "why": f"ffcx failed: {type(e).__name__}: {str(e)[:300]}",
+                                "ffcx_error": True, "tb": traceback.format_exc()[-2500:]})
+        return out
+    if any(rec[1].get("pre_compile") for rec in chunk):
+        # history: the *same* UFL form object is first compiled for other scalar types in this process
+        out = []
+        for rec in chunk:
+            try:
+                for sc in rec[1].get("pre_compile", []):
+                    s5.Module([rec[2]["form"]], sc, opts)
+                out.append((rec, (s5.Module([rec[2]["form"]], scalar, opts), 0)))
+            except Exception as e:  # noqa: BLE001
+                skipped.append({"item": rec[0], "why": f"ffcx failed: {type(e).__name__}: {str(e)[:300]}",
+                                "ffcx_error": True, "history_error": bool(rec[1].get("pre_compile")), "tb": traceback.format_exc()[-2500:]})
+        return out
     try:
         mod = s5.Module(forms, scalar, opts)
         return [(rec, (mod, k)) for k, rec in enumerate(chunk)]
@@ -175,7 +211,7 @@ def _run(orc, meas, skipped, idx, it, r, progs, mod, k):
                     for _ in range(it.get("nperm", 2)):
                         plan.append(([fp, fm], [rnd.randrange(npm), rnd.randrange(npm)], [xp, xm], {}))
         for ent, perm, xs_given, extra in plan:
-            use_oracle = extra.get("oracle", True)
+            use_oracle = extra.get("oracle", not it.get("no_oracle", False))
             if use_oracle:
                 try:
                     ci = orc.conf(pi, ent, perm)
@@ -235,6 +271,13 @@ def _run(orc, meas, skipped, idx, it, r, progs, mod, k):
                             np.array(perm + [0], dtype=np.uint8)[:2].copy())
                 c_twin = {"A_c": [[float(z.real), float(z.imag)] for z in Ac.astype(complex)],
                           "nb_descriptor": r["nb_descriptor"], "c_descriptor": r["c_descriptor"]}
+            if r.get("twin_module") is not None:
+                tm = r["twin_module"]
+                At = np.zeros(n, dtype=np.dtype(scalar))
+                for kern in tm.kernels(0, prog.itype, prog.subdomain_id):
+                    tm.call(kern, At, w_, c_, x_, np.array(ent + [0], dtype=np.int32)[:2].copy(),
+                            np.array(perm + [0], dtype=np.uint8)[:2].copy())
+                c_twin = {"A_twin": [[float(z.real), float(z.imag)] for z in At.astype(complex)]}
             c05 = None
             if it.get("poison_disabled") and prog.itype != "expression":
                 fobj = mod.objs[k]
